@@ -102,7 +102,6 @@ structure GraphWF (inits : List TensorP) (inputs outputs vis : List ValueInfoP) 
   nodupVis : (vis.map (·.name)).Nodup
   visNotIO : ∀ vi ∈ vis, vi.name ∉ inputs.map (·.name) ∧ vi.name ∉ outputs.map (·.name)
   nodupOut : (outputs.map (·.name)).Nodup
-  outInput : ∀ vo ∈ outputs, vo.name ∈ inputs.map (·.name) → vo ∈ inputs
   wfInit : inits.all (fun t => wfTensor t && validDType t.dataType) = true
   nodupQuant : (quant.map (·.tensorName)).Nodup
   quantOK : ∀ a ∈ quant, a.tensorName ∈ scopeNames (inputs.map (·.name)) (inits.map (·.name)) outs
@@ -110,6 +109,24 @@ structure GraphWF (inits : List TensorP) (inputs outputs vis : List ValueInfoP) 
 
 variable {inits : List TensorP} {inputs outputs vis : List ValueInfoP} {quant : List AnnotP}
   {outs : List String}
+
+theorem nodupNames_parts (hw : GraphWF inits inputs outputs vis quant outs) :
+    (inputs.map (·.name)).Nodup ∧ outs.Nodup ∧
+    (∀ n ∈ outs, n ∉ inputs.map (·.name) ∧ n ∉ inits.map (·.name)) := by
+  have hnd := hw.nodupNames
+  simp only [scopeNames] at hnd
+  rw [List.nodup_append] at hnd
+  obtain ⟨hAB, hC, hdisC⟩ := hnd
+  rw [List.nodup_append] at hAB
+  refine ⟨hAB.1, hC, ?_⟩
+  intro n hn
+  refine ⟨fun h => hdisC n (List.mem_append_left _ h) n hn rfl, fun h => ?_⟩
+  by_cases hin : n ∈ inputs.map (·.name)
+  · exact hdisC n (List.mem_append_left _ hin) n hn rfl
+  · exact hdisC n (List.mem_append_right _ (List.mem_filter.2 ⟨h, by simpa using hin⟩)) n hn rfl
+
+theorem GraphWF.nodupIn (hw : GraphWF inits inputs outputs vis quant outs) :
+    (inputs.map (·.name)).Nodup := (nodupNames_parts hw).1
 
 /-- the table after inputs, initializers and declared node outputs -/
 def tblPre (inits : List TensorP) (inputs vis : List ValueInfoP) (quant : List AnnotP)
@@ -208,68 +225,6 @@ theorem dictUpdate_of_subset {d : Dict} (hnd : (dkeys d).Nodup) :
     rw [dictSet_of_mem hnd (h (k, v) (by simp))]
     exact dictUpdate_of_subset hnd u (fun x hx => h x (List.mem_cons_of_mem _ hx))
 
-/-- re-applying the entry a value was built from changes nothing (pass-through outputs) -/
-theorem applyInfoT_self (q : List AnnotP) (vi : ValueInfoP) :
-    applyInfoT (constFrom inits (inputValT q vi)) vi = constFrom inits (inputValT q vi) := by
-  have hm : (constFrom inits (inputValT q vi)).mprops = dictOfEntries vi.metadata := by
-    have h1 := (sameInfo_constFrom inits (inputValT q vi)).2.2.2.2
-    have h2 := (sameInfo_applyQuant q (applyInfoT (IRValue.blank vi.name) vi)).2.2.2.2
-    rw [h1]
-    simp only [inputValT]
-    rw [h2]
-    simp [applyInfoT, IRValue.blank, dictUpdate_nil _ (nodup_dkeys_dictOfEntries _)]
-  have ht : (constFrom inits (inputValT q vi)).type = tyOf vi.type := by
-    rw [(sameInfo_constFrom inits (inputValT q vi)).2.1]
-    simp only [inputValT]
-    rw [(sameInfo_applyQuant q _).2.1]; rfl
-  have hs : (constFrom inits (inputValT q vi)).shape = shOf vi.type := by
-    rw [(sameInfo_constFrom inits (inputValT q vi)).2.2.1]
-    simp only [inputValT]
-    rw [(sameInfo_applyQuant q _).2.2.1]; rfl
-  have hd : (constFrom inits (inputValT q vi)).doc = vi.doc := by
-    rw [(sameInfo_constFrom inits (inputValT q vi)).2.2.2.1]
-    simp only [inputValT]
-    rw [(sameInfo_applyQuant q _).2.2.2.1]; rfl
-  generalize constFrom inits (inputValT q vi) = u at hm ht hs hd
-  cases u
-  simp only [applyInfoT] at hm ht hs hd ⊢
-  subst hm ht hs hd
-  simp [dictUpdate_of_subset (nodup_dkeys_dictOfEntries _) _ (fun x hx => hx)]
-
-/-- a graph input keeps its value even when it is also listed as a graph output (pass-through) -/
-theorem outUpd_input (hw : GraphWF inits inputs outputs vis quant outs) {vi : ValueInfoP}
-    (hvi : vi ∈ inputs) :
-    outUpd outputs (constFrom inits (inputValT quant vi)) = constFrom inits (inputValT quant vi) := by
-  by_cases hm : vi.name ∈ outputs.map (·.name)
-  · obtain ⟨vo, hvo, hn⟩ := List.mem_map.1 hm
-    have hvoin : vo ∈ inputs := hw.outInput vo hvo (by rw [hn]; exact List.mem_map_of_mem hvi)
-    have hAnd : (inputs.map (·.name)).Nodup := by
-      have hnd := hw.nodupNames
-      simp only [scopeNames] at hnd
-      rw [List.nodup_append] at hnd
-      have := hnd.1
-      rw [List.nodup_append] at this
-      exact this.1
-    have heq : vo = vi := by
-      have h1 := find?_of_nodup (fun v : ValueInfoP => v.name) hAnd hvoin
-      have h2 := find?_of_nodup (fun v : ValueInfoP => v.name) hAnd hvi
-      simp only [hn] at h1
-      rw [h2] at h1
-      exact (Option.some.inj h1).symm
-    subst heq
-    rw [outUpd_of_mem hw.nodupOut hvo (by simp)]
-    exact applyInfoT_self quant vo
-  · exact outUpd_id (by simpa using hm)
-
-theorem mem_tblFinal_input (hw : GraphWF inits inputs outputs vis quant outs) {vi : ValueInfoP}
-    (hvi : vi ∈ inputs) :
-    constFrom inits (inputValT quant vi) ∈ tblFinal inits inputs outputs vis quant outs := by
-  rw [← outUpd_input hw hvi]
-  simp only [tblFinal, tblPre]
-  apply List.mem_map_of_mem
-  simp only [List.mem_append]
-  exact Or.inl (Or.inl (List.mem_map_of_mem (List.mem_map_of_mem hvi)))
-
 theorem mem_tblFinal_init (_hw : GraphWF inits inputs outputs vis quant outs) {p : TensorP}
     (hp : p ∈ inits) (hni : p.name ∉ inputs.map (·.name)) :
     outUpd outputs (initValT vis quant p) ∈ tblFinal inits inputs outputs vis quant outs := by
@@ -340,6 +295,58 @@ theorem shouldCreateVI_applyInfoT_blank (vi : ValueInfoP) (h : wfVI vi = true) :
   have := (applyInfo_eq (IRValue.blank vi.name) vi h.1).2.2
   exact shouldCreateVI_of_info vi (tyOf vi.type) (shOf vi.type) [] none this
 
+/-- the value of a graph input in the final table: with the output entry applied when the input is
+also a graph output (pass-through) -/
+def inFinal (inits : List TensorP) (outputs : List ValueInfoP) (quant : List AnnotP) (vi : ValueInfoP) :
+    IRValue :=
+  outUpd outputs (constFrom inits (inputValT quant vi))
+
+@[simp] theorem inFinal_name (vi : ValueInfoP) : (inFinal inits outputs quant vi).name = vi.name := by
+  simp [inFinal]
+
+theorem mem_tblFinal_input (_hw : GraphWF inits inputs outputs vis quant outs) {vi : ValueInfoP}
+    (hvi : vi ∈ inputs) :
+    inFinal inits outputs quant vi ∈ tblFinal inits inputs outputs vis quant outs := by
+  simp only [inFinal, tblFinal, tblPre]
+  apply List.mem_map_of_mem
+  simp only [List.mem_append]
+  exact Or.inl (Or.inl (List.mem_map_of_mem (List.mem_map_of_mem hvi)))
+
+theorem inFinal_const (vi : ValueInfoP) :
+    (inFinal inits outputs quant vi).const = (constFrom inits (inputValT quant vi)).const := by
+  unfold inFinal outUpd; split <;> rfl
+
+/-- serializing a graph input: its own entry, or the merged entry when it is a pass-through -/
+theorem serValue_inFinal (hw : GraphWF inits inputs outputs vis quant outs) {vi : ValueInfoP}
+    (hvi : vi ∈ inputs) :
+    serValue (inFinal inits outputs quant vi) = normInputVI outputs vi := by
+  have hwfi := List.all_eq_true.1 hw.wfIn vi hvi
+  have hsame : sameInfo (constFrom inits (inputValT quant vi)) (applyInfoT (IRValue.blank vi.name) vi) :=
+    sameInfo_trans (sameInfo_constFrom inits _) (sameInfo_applyQuant quant _)
+  unfold normInputVI
+  cases hf : findVI outputs vi.name with
+  | none =>
+    have hno : (constFrom inits (inputValT quant vi)).name ∉ outputs.map (·.name) := by
+      simp only [constFrom_name, inputValT_name]
+      intro hm
+      obtain ⟨vo, hvo, hn⟩ := List.mem_map.1 hm
+      have := find?_of_nodup (fun v : ValueInfoP => v.name) hw.nodupOut hvo
+      rw [findVI, findLast?_eq_find? (fun v : ValueInfoP => v.name) vi.name _ hw.nodupOut, ← hn, this] at hf
+      cases hf
+    rw [inFinal, outUpd_id hno, serValue_congr hsame]
+    exact serValue_applyInfoT_blank vi hwfi
+  | some vo =>
+    obtain ⟨hvo, hn⟩ := findVI_mem hf
+    have hwfo := List.all_eq_true.1 hw.wfOut vo hvo
+    simp only [wfVI, Bool.and_eq_true] at hwfo
+    rw [inFinal, outUpd_of_mem hw.nodupOut hvo (by simp [hn])]
+    have h3 := (applyInfo_eq (IRValue.blank vo.name) vo hwfo.1).2.1
+    have hmp : (constFrom inits (inputValT quant vi)).mprops = dictOfEntries vi.metadata := by
+      rw [hsame.2.2.2.2]
+      simp [applyInfoT, IRValue.blank, dictUpdate_nil _ (nodup_dkeys_dictOfEntries _)]
+    simp only [serValue, serValueAs, applyInfoT, mergeVI, h3, hmp, constFrom_name, inputValT_name, hn]
+    simp
+
 theorem mem_scopeNames {a b c : List String} {n : String} :
     n ∈ scopeNames a b c ↔ n ∈ a ∨ (n ∈ b ∧ n ∉ a) ∨ n ∈ c := by
   simp [scopeNames, List.mem_filter, or_assoc]
@@ -348,7 +355,7 @@ theorem mem_scopeNames {a b c : List String} {n : String} :
 theorem ser_inputs (hw : GraphWF inits inputs outputs vis quant outs) :
     (List.range inputs.length).map
       (fun i => serValue ((tblFinal inits inputs outputs vis quant outs).getD i (IRValue.blank "")))
-    = inputs.map normValueInfo := by
+    = inputs.map (normInputVI outputs) := by
   rw [map_range_getD _ _ _ _ (by simp [tblFinal, tblPre])]
   have : (tblFinal inits inputs outputs vis quant outs).take inputs.length
       = ((inputs.map (inputValT quant)).map (constFrom inits)).map (outUpd outputs) := by
@@ -360,11 +367,7 @@ theorem ser_inputs (hw : GraphWF inits inputs outputs vis quant outs) :
   apply List.map_congr_left
   intro vi hvi
   simp only [Function.comp]
-  rw [outUpd_input hw hvi]
-  have : sameInfo (constFrom inits (inputValT quant vi)) (applyInfoT (IRValue.blank vi.name) vi) :=
-    sameInfo_trans (sameInfo_constFrom inits _) (sameInfo_applyQuant quant _)
-  rw [serValue_congr this]
-  exact serValue_applyInfoT_blank vi (List.all_eq_true.1 hw.wfIn vi hvi)
+  exact serValue_inFinal hw hvi
 
 theorem findVI_none_of_output (hw : GraphWF inits inputs outputs vis quant outs) {n : String}
     (hn : n ∈ outputs.map (·.name)) : findVI vis n = none := by
@@ -391,26 +394,35 @@ theorem sameInfo_out_init (hw : GraphWF inits inputs outputs vis quant outs) {p 
 theorem ser_outputs (hw : GraphWF inits inputs outputs vis quant outs) :
     (outputs.map (gOutT (scopeNames (inputs.map (·.name)) (inits.map (·.name)) outs))).map
       (serGOut (tblFinal inits inputs outputs vis quant outs))
-    = outputs.map normValueInfo := by
+    = outputs.map (normOutputVI inputs) := by
   simp only [List.map_map]
   apply List.map_congr_left
   intro vo hvo
   simp only [Function.comp, gOutT]
   have hwf := List.all_eq_true.1 hw.wfOut vo hvo
+  have hnorm : vo.name ∉ inputs.map (·.name) → normOutputVI inputs vo = normValueInfo vo := by
+    intro h
+    simp only [normOutputVI, findVI_none_iff.2 h]
   cases hl : lookupLast (scopeNames (inputs.map (·.name)) (inits.map (·.name)) outs) vo.name with
-  | none => exact serValue_applyInfoT_blank vo hwf
+  | none =>
+    rw [hnorm (fun h => by
+      have := lookupLast_isSome (mem_scopeNames.2 (Or.inl h) :
+        vo.name ∈ scopeNames (inputs.map (·.name)) (inits.map (·.name)) outs)
+      rw [hl] at this; cases this)]
+    exact serValue_applyInfoT_blank vo hwf
   | some i =>
     simp only [serGOut]
     have hmem := lookupLast_mem hl
     by_cases hin : vo.name ∈ inputs.map (·.name)
-    · -- pass-through: the output is a graph input
-      have hvoin := hw.outInput vo hvo hin
-      have hm := mem_tblFinal_input hw hvoin
-      rw [getD_tblFinal hw hl hm (by simp)]
-      have : sameInfo (constFrom inits (inputValT quant vo)) (applyInfoT (IRValue.blank vo.name) vo) :=
-        sameInfo_trans (sameInfo_constFrom inits _) (sameInfo_applyQuant quant _)
-      rw [serValue_congr this]
-      exact serValue_applyInfoT_blank vo hwf
+    · -- pass-through: the output is a graph input; the value carries the merged entry
+      obtain ⟨vi, hvi, hn⟩ := List.mem_map.1 hin
+      have hm := mem_tblFinal_input hw hvi
+      rw [getD_tblFinal hw hl hm (by simp [hn])]
+      rw [serValue_inFinal hw hvi]
+      have h1 : findVI outputs vi.name = some vo := by rw [hn]; exact findVI_of_mem hw.nodupOut hvo
+      have h2 : findVI inputs vo.name = some vi := by rw [← hn]; exact findVI_of_mem hw.nodupIn hvi
+      simp only [normInputVI, normOutputVI, h1, h2]
+    rw [hnorm hin]
     by_cases hinit : vo.name ∈ inits.map (·.name)
     · -- constant output: the output is a (non-input) initializer
       obtain ⟨p, hp, hpn⟩ := List.mem_map.1 hinit
@@ -581,11 +593,12 @@ theorem init_elem (hw : GraphWF inits inputs outputs vis quant outs) {p : Tensor
   by_cases hin : p.name ∈ inputs.map (·.name)
   · obtain ⟨vi, hvi, hvn⟩ := List.mem_map.1 hin
     have hm := mem_tblFinal_input hw hvi
-    have hname : (constFrom inits (inputValT quant vi)).name = p.name := by simp [hvn]
+    have hname : (inFinal inits outputs quant vi).name = p.name := by simp [hvn]
     have hg := getD_tblFinal hw hi hm hname
     rw [hg]
     refine ⟨hname, ?_, ?_, fun h => absurd hin h⟩
-    · simp only [constFrom, inputValT_name]
+    · rw [inFinal_const]
+      simp only [constFrom, inputValT_name]
       have := find?_of_nodup (·.name) hw.nodupInit hp
       rw [hvn, this]
       rfl
@@ -928,17 +941,11 @@ theorem graphWF_of_wf (outer : Scopes) (name doc : String) (nodes : List NodeP)
       wfNodes (scopeNames (inputs.map (·.name)) (inits.map (·.name)) (nodeOutNames nodes) :: outer) nodes
         = true := by
   simp only [wfGraph, Bool.and_eq_true] at h
-  obtain ⟨⟨⟨⟨⟨⟨⟨⟨⟨⟨⟨⟨⟨⟨h1, h2⟩, h3⟩, h4⟩, h5⟩, h6⟩, h7⟩, h8⟩, h9⟩, h10⟩, h11⟩, h12⟩, h13⟩, _h14⟩, h15⟩ := h
+  obtain ⟨⟨⟨⟨⟨⟨⟨⟨⟨⟨⟨⟨⟨h1, h2⟩, h3⟩, h4⟩, h5⟩, h6⟩, h7⟩, h8⟩, h9⟩, h11⟩, h12⟩, h13⟩, _h14⟩, h15⟩ := h
   refine ⟨⟨nodupStr_iff.1 h1, nodupStr_all_nonempty h2, nodupStr_iff.1 h3, h4, h5, h6, nodupStr_iff.1 h7,
-    ?_, nodupStr_iff.1 h9, ?_, h11, nodupStr_iff.1 h12, ?_⟩, h15⟩
+    ?_, nodupStr_iff.1 h9, h11, nodupStr_iff.1 h12, ?_⟩, h15⟩
   · intro vi hvi
     have := List.all_eq_true.1 h8 vi hvi
-    simpa using this
-  · intro vo hvo hin
-    have := List.all_eq_true.1 h10 vo hvo
-    have hc : (inputs.map (·.name)).contains vo.name = true := by
-      rw [List.contains_eq_mem]; exact decide_eq_true hin
-    rw [hc] at this
     simpa using this
   · intro a ha
     have := List.all_eq_true.1 h13 a ha
@@ -1139,9 +1146,8 @@ theorem graph_core (outer : Scopes) (ver : Option Int) (name doc : String) (node
       intro vi hvi
       have hvi' : vi ∈ inputs := (List.mem_filter.1 hvi).1
       have hm := mem_tblFinal_input hw hvi'
-      rw [outUpd_input hw hvi']
       have := quantOf_eq quant _ (quant_tblFinal hw hm)
-      simpa using this
+      simpa [inFinal] using this
     -- the initializer loop of the annotations
     have hseen1 : ∀ i ∈ idxs, i ∉ ((List.range inputs.length).filter (fun i => !(inits.map (·.name)).contains
         ((tblFinal inits inputs outputs vis quant (nodeOutNames nodes)).getD i (IRValue.blank "")).name)).reverse ++ [] := by
